@@ -229,21 +229,15 @@ def shrink(v, bad):
     changed = True
     while changed:
         changed = False
-        cands = []
+        cands = list(simpler(v))
         if isinstance(v, (list, tuple)):
-            cands += [x for x in v]
-            for i in range(len(v)):
-                c = type(v)(list(v[:i]) + list(v[i + 1:]))
-                cands.append(c)
             for i, x in enumerate(v):
-                if isinstance(x, (list, tuple)) or (type(x) is str and len(x) > 1):
-                    for y in simpler(x):
-                        cands.append(type(v)(list(v[:i]) + [y] + list(v[i + 1:])))
-                elif type(x) is not int or x != 0:
-                    if type(x) is not float and type(x) is not str:
-                        cands.append(type(v)(list(v[:i]) + [0] + list(v[i + 1:])))
-        else:
-            cands += simpler(v)
+                for y in simpler(x):
+                    cands.append(type(v)(list(v[:i]) + [y] + list(v[i + 1:])))
+                if isinstance(x, (list, tuple)):     # one level deeper
+                    for j, z in enumerate(x):
+                        for y in simpler(z):
+                            cands.append(type(v)(list(v[:i]) + [type(x)(list(x[:j]) + [y] + list(x[j + 1:]))] + list(v[i + 1:])))
         for c in cands:
             if in_scope(c) and not same(c, v) and bad(c):
                 v = c
@@ -254,8 +248,16 @@ def shrink(v, bad):
 
 def simpler(x):
     out = []
-    if type(x) is str and len(x) > 1:
-        out += [x[:i] + x[i + 1:] for i in range(len(x))]
+    if type(x) is str:
+        out += [x[:i] + x[i + 1:] for i in range(len(x))] if len(x) > 1 else []
+        if x != "a":
+            out.append("a")
+    elif type(x) is int:
+        if x != 0:
+            out.append(0)
+    elif type(x) is float:
+        if x != 0.5:
+            out.append(0.5)
     elif isinstance(x, (list, tuple)):
         out += list(x)
         out += [type(x)(list(x[:i]) + list(x[i + 1:])) for i in range(len(x))]
@@ -370,24 +372,30 @@ def report_roundtrip_violation(ctx, v, shrunk_budget=None):
         for c in sorted(feats0):        # explained by classes that were already reported with shrunk witnesses
             ctx.count("violation:" + c)
         return
-    small = shrink(v, fails)
-    _, out = roundtrip_impl(small)
-    got = out[1]
-    feats = features(small)
-    expected_by_classes = out[0] == "ok" and same(got, norm(small)) and feats
-    what = "pl2py(py2pl(%r)) = %r" % (small, got)
-    replay = {"kind": "roundtrip", "value": repr(small), "observed": repr(got)}
-    if expected_by_classes:
-        for c in sorted(feats):
-            report(ctx, what + " [%s]" % c, replay, c)
-            ctx.count("violation:" + c)
-    else:
-        report(ctx, what + " (not explained by the known classes)", replay, None)
-        ctx.count("violation:unclassified")
+    targets = [c for c in sorted(feats0) if ctx._reported.get(c, 0) < 3] or [None]
+    for c in targets:
+        if c is None:
+            small = shrink(v, fails)
+        else:       # class-directed: keep the feature of class c, then try to lose the others
+            small = shrink(v, lambda x: fails(x) and c in features(x))
+            small = shrink(small, lambda x: fails(x) and features(x) == {c}) if features(small) != {c} else small
+        _, out = roundtrip_impl(small)
+        got = out[1]
+        feats = features(small)
+        explained = out[0] == "ok" and same(got, norm(small)) and feats
+        what = "pl2py(py2pl(%r)) = %r" % (small, got)
+        replay = {"kind": "roundtrip", "value": repr(small), "observed": repr(got)}
+        if explained:
+            k = c if c in feats else sorted(feats)[0]
+            report(ctx, what + " [%s]" % k, replay, k)
+            ctx.count("violation:" + k)
+        else:
+            report(ctx, what + " (not explained by the known classes)", replay, None)
+            ctx.count("violation:unclassified")
 
 
 def run_roundtrip(ctx):
-    n = ctx.n(800, 60000)
+    n = ctx.n(600, 60000)
     cases, metas = [], []
     budget = [40]
     for i in range(n):
@@ -426,7 +434,7 @@ def run_roundtrip(ctx):
 
 def run_pl2py_terms(ctx):
     from problog.pypl import pl2py
-    n = ctx.n(300, 20000)
+    n = ctx.n(250, 20000)
     cases, metas = [], []
     for _ in range(n):
         t = gen_term(ctx.rng, ctx.rng.choice([1, 2, 3, 4]))
@@ -453,7 +461,7 @@ def run_convert(ctx):
     from problog.extern import problog_export
     from problog.logic import Term, Constant
     pe = problog_export()
-    n = ctx.n(300, 20000)
+    n = ctx.n(250, 20000)
     cases, metas = [], []
     budget = [10]
     for _ in range(n):
